@@ -94,31 +94,41 @@ def signStep1 (a : SignAuthArgs) : M (Except Int Nat) :=
         else nextSize resp)
     (fun sw => pure (Except.error (applyRule signAuthorized_0 sw)))
 
-def signAuthorized (a : SignAuthArgs) : M SignOut := do
-  let unexpected := SignResponse_ERROR_UNEXPECTED
-  -- Step 1: path and input index (the conversion is outside the try)
-  if a.input < 0 ∨ a.input ≥ 2 ^ 32 then M.throw' .overflowError else
-  match ← signStep1 a with
+/-- a step's outcome: a failure code ends the signature, a success feeds the next step -/
+def orFail {β : Type} (s : Except Int β) (k : β → M SignOut) : M SignOut :=
+  match s with
   | .error c => pure (.fail c)
-  | .ok req1 =>
-  -- Step 2: BTC tx + extra data
-  match btcPayload a with
-  | none => pure (.fail SignResponse_ERROR_BTC_TX)
-  | some payload =>
-  match ← chunkStep OP_BTC_TX [OP_TX_RECEIPT] payload req1 signAuthorized_1 nextSize with
-  | .error c => pure (.fail c)
-  | .ok req2 =>
-  -- Step 3: receipt
-  match ← chunkStep OP_TX_RECEIPT [OP_MERKLE_PROOF] a.receipt req2 signAuthorized_2 nextSize with
-  | .error c => pure (.fail c)
-  | .ok req3 =>
-  -- Step 4: merkle proof
+  | .ok x => k x
+
+/-- step 4: the receipt's merkle proof, then the signature -/
+def signTail4 (pp : Bytes) (req3 : Nat) : M SignOut := do
+  let s ← chunkStep OP_MERKLE_PROOF [OP_SUCCESS] pp req3 signAuthorized_3 (fun resp => pure (Except.ok resp))
+  orFail s fun resp => pure (sigOfResponse resp SignResponse_ERROR_UNEXPECTED)
+
+/-- what follows the receipt: the framed proof, if it can be framed -/
+def signProof (a : SignAuthArgs) (req3 : Nat) : M SignOut :=
   match proofPayload a.proof with
   | none => pure (.fail SignResponse_ERROR_MERKLE_PROOF)
-  | some pp =>
-  match ← chunkStep OP_MERKLE_PROOF [OP_SUCCESS] pp req3 signAuthorized_3 (fun resp => pure (Except.ok resp)) with
-  | .error c => pure (.fail c)
-  | .ok resp => pure (sigOfResponse resp unexpected)
+  | some pp => signTail4 pp req3
+
+/-- step 3: the receipt -/
+def signTail3 (a : SignAuthArgs) (req2 : Nat) : M SignOut := do
+  let s ← chunkStep OP_TX_RECEIPT [OP_MERKLE_PROOF] a.receipt req2 signAuthorized_2 nextSize
+  orFail s (signProof a)
+
+/-- step 2: BTC tx + extra data -/
+def signTail2 (a : SignAuthArgs) (req1 : Nat) : M SignOut :=
+  match btcPayload a with
+  | none => pure (.fail SignResponse_ERROR_BTC_TX)
+  | some payload => do
+    let s ← chunkStep OP_BTC_TX [OP_TX_RECEIPT] payload req1 signAuthorized_1 nextSize
+    orFail s (signTail3 a)
+
+def signAuthorized (a : SignAuthArgs) : M SignOut := do
+  -- Step 1: path and input index (the conversion is outside the try)
+  if a.input < 0 ∨ a.input ≥ 2 ^ 32 then M.throw' .overflowError else
+  let s ← signStep1 a
+  orFail s (signTail2 a)
 
 /-- `sign_unauthorized(key_id, hash)`; `hash` is the decoded hex (`None` if it does not decode) -/
 def signUnauthorized (path : List Nat) (hash : Option Bytes) : M SignOut :=
